@@ -35,6 +35,12 @@ pub struct Tx {
     pub completed_at: Option<u64>,
     pub transmissions: u32,
     pub reconfigured_mid: bool,
+    /// method of the request, and which integrity algorithms it carries (SHA-1, SHA-256)
+    pub method: u16,
+    pub req_algs: (bool, bool),
+    /// cancelled, already gone from the agent's table (the id was re-used), but its
+    /// TransactionCancelled report has not been seen yet
+    pub report_pending: bool,
 }
 
 const MS: u64 = 1_000_000;
@@ -171,12 +177,23 @@ impl Model {
 
     // -------------------------------------------------------------------------------------------
     pub fn on_send_request(&mut self, tid: u128, dest: SocketAddr, bytes: &[u8], signed: bool, now: u64, reply: &Reply) -> Result<(), Violation> {
-        if self.live_idx(tid).is_some() {
+        if let Some(i) = self.live_idx(tid) {
+            if self.txs[i].rc && matches!(reply, Reply::Transmit { .. }) {
+                // the transaction was cancelled and only its report is still owed: whether it still
+                // counts as outstanding in that window is not stated by any property.  An agent that
+                // accepts the id again has, for the model, completed the old transaction (its
+                // TransactionCancelled report may still come).
+                self.txs[i].status = Status::Cancelled;
+                self.txs[i].completed_at = Some(now);
+                self.txs[i].report_pending = true;
+                // fall through: the send is treated as the send of a fresh request
+            } else {
             self.note_instant(now, None);
             return match reply {
                 Reply::SendErr(e) if e.contains("AlreadyInProgress") => Ok(()),
                 o => Err(v("C05", "duplicate_id_refused", "send", format!("send of a request whose id {tid:#x} is outstanding answered {}", o.short()))),
             };
+            }
         }
         // C20, last sentence: with other transactions outstanding, a send must still be answered with
         // its own transmission (the instant passed to it must not be applied to the others)
@@ -214,6 +231,12 @@ impl Model {
             completed_at: None,
             transmissions: 1,
             reconfigured_mid: false,
+            method: if bytes.len() >= 2 { refcodec::method_of(((bytes[0] as u16) << 8) | bytes[1] as u16) } else { 0 },
+            req_algs: match refcodec::decode(bytes) {
+                Verdict::Accept(view) => (view.all.iter().any(|a| a.ty == refcodec::MI), view.all.iter().any(|a| a.ty == refcodec::MI256)),
+                _ => (false, false),
+            },
+            report_pending: false,
         });
         let idx = self.txs.len() - 1;
         self.note_instant(now, Some(idx));
@@ -265,10 +288,9 @@ impl Model {
                         continue;
                     }
                     if tx.sc {
+                        // when a transaction whose retransmissions were cancelled completes is not
+                        // stated by any property (only that it does, exactly once: the drain's bound)
                         any_sc = true;
-                        if now >= tx.deadline() {
-                            pending.push((v("C05", "send_cancelled_completes", "poll", format!("transaction {:#x} (retransmissions cancelled) is past its whole schedule at +{} but poll answered {}", tx.tid, fmt_ns(now as i128), reply.short())), "foreign.C05.send_cancelled_completes"));
-                        }
                         continue;
                     }
                     if tx.next_instant() <= now {
@@ -284,7 +306,9 @@ impl Model {
                     let ok = if !any_sc {
                         Some(*t) == m1.map(|m| m as i128)
                     } else {
-                        let within_sc = self.live().any(|tx| tx.sc && *t > now as i128 && *t <= tx.deadline() as i128);
+                        // with send-cancelled transactions around, the wake-up may be theirs: any
+                        // instant after now and not later than the others' earliest need
+                        let within_sc = *t > now as i128;
                         (Some(*t) == m1.map(|m| m as i128)) || (within_sc && m1.map_or(true, |m| *t <= m as i128))
                     };
                     if self.check_prop == "C20" && (!ok || had_pending) {
@@ -362,6 +386,12 @@ impl Model {
                 Ok(PollOutcome::TimedOut(*tid))
             }
             Reply::Cancelled(tid) => {
+                if let Some(j) = self.txs.iter().position(|t| t.tid == *tid && t.report_pending) {
+                    self.txs[j].report_pending = false;
+                    self.note_instant(now, None);
+                    self.invalidate_wait();
+                    return Ok(PollOutcome::Wait);
+                }
                 let Some(i) = self.live_idx(*tid) else {
                     return Err(v("C05", "completion_only_for_outstanding", "poll", format!("poll reported a cancellation for {tid:#x} which is not outstanding")));
                 };
@@ -418,11 +448,32 @@ impl Model {
                 Drop,
                 Either,
             }
+            // The properties state when a response must NOT be delivered, and one case in which it
+            // must be ("a request sent without integrity accepts an unauthenticated response").  The
+            // model demands delivery only of the *canonical* response: from the address the request
+            // was sent to, with the request's method, and — for a signed request — carrying exactly
+            // the integrity algorithms the request carried, all valid; for an unsigned request,
+            // carrying no integrity attribute at all.  Refusing anything else (another source
+            // address, another method, a bid-down to the other algorithm, a MAC nobody asked for) is
+            // legitimate hardening no property forbids: either verdict.
+            let resp_type = ((bytes[0] as u16) << 8) | bytes[1] as u16;
+            let resp_view = match refcodec::decode(bytes) {
+                Verdict::Accept(view) => Some(view),
+                _ => None,
+            };
+            let resp_algs = resp_view.as_ref().map(|v| (v.exposed.iter().any(|&i| v.all[i].ty == refcodec::MI), v.exposed.iter().any(|&i| v.all[i].ty == refcodec::MI256)));
+            let canonical = from == tx.dest && refcodec::method_of(resp_type) == tx.method && match resp_algs {
+                Some(a) => a == tx.req_algs,
+                None => false,
+            };
+            if !canonical {
+                st.inc("probe.non_canonical_response");
+            }
             let exp = if tx.rc {
                 st.inc("probe.response_after_cancel_before_report");
                 Exp::Either
             } else if !tx.signed {
-                Exp::Deliver
+                if canonical { Exp::Deliver } else { Exp::Either }
             } else {
                 match &self.remote {
                     None => Exp::Drop,
@@ -436,7 +487,7 @@ impl Model {
                             if s.is_empty() || ok == 0 {
                                 Exp::Drop
                             } else if ok == s.len() {
-                                Exp::Deliver
+                                if canonical { Exp::Deliver } else { Exp::Either }
                             } else if !s.last().unwrap().2 {
                                 // wrong last MAC over a correct earlier one: byte for byte what
                                 // tampering with a correctly sealed response produces
@@ -458,6 +509,12 @@ impl Model {
                 Reply::Response(m) => {
                     if exp == Exp::Drop {
                         let why = if self.remote.is_none() { "no remote credentials are configured" } else { "its integrity does not validate under the remote credentials" };
+                        if self.check_prop == "C15" && !self.validated.contains(&from) {
+                            // C15: "dropped messages (... failed or missing integrity) ... never
+                            // validate it" — this message had to be dropped; delivering it is C07's
+                            // business, validating its sender on the strength of it is C15's
+                            return Err(v("C15", "validated_only_by_accepted_message", "response_failing_integrity", format!("a response from {from} for signed request {tid:#x} was delivered — and its sender thereby validated — although {why}")));
+                        }
                         return Err(v("C07", "delivery_requires_valid_integrity", "handle_stun", format!("request {tid:#x} was signed; a response was delivered although {why}")));
                     }
                     if m.tid != tid {
@@ -521,6 +578,9 @@ impl Model {
         Ok(())
     }
     fn check_handle(&self, tid: u128, live: bool, reply: &Reply) -> Result<(), Violation> {
+        if live && matches!(reply, Reply::Handle(None)) && self.live_idx(tid).map_or(false, |i| self.txs[i].rc) {
+            return Ok(());
+        }
         match reply {
             Reply::Handle(None) if !live => Ok(()),
             Reply::Handle(Some(a)) if live => {
@@ -536,6 +596,12 @@ impl Model {
 
     pub fn check_query_tx(&self, tid: u128, reply: &Reply) -> Result<(), Violation> {
         let live = self.live_idx(tid);
+        // cancelled, report still owed: outstanding or not is the implementation's choice
+        if let (Some(i), Reply::Tx(None)) = (live, reply) {
+            if self.txs[i].rc {
+                return Ok(());
+            }
+        }
         match (reply, live) {
             (Reply::Tx(None), None) => Ok(()),
             (Reply::Tx(Some(a)), Some(i)) => {
